@@ -275,7 +275,7 @@ func (pr *propRun) finish(e *Engine, seed int, t0 time.Time) int {
 	violations := 0
 	knownReported := []string{}
 	exit := 0
-	os.MkdirAll(filepath.Join("/verif/replays", pr.prop), 0o755)
+	os.MkdirAll(filepath.Join(outDir, "replays", pr.prop), 0o755)
 	for _, f := range pr.failed {
 		matched := false
 		for _, k := range known {
@@ -291,7 +291,7 @@ func (pr *propRun) finish(e *Engine, seed int, t0 time.Time) int {
 		}
 		violations++
 		exit = 1
-		path := filepath.Join("/verif/replays", pr.prop, sanitize(f.rec.Name)+".json")
+		path := filepath.Join(outDir, "replays", pr.prop, sanitize(f.rec.Name)+".json")
 		rp := buildReplay(e, pr.prop, f)
 		data, _ := json.MarshalIndent(rp, "", " ")
 		os.WriteFile(path, data, 0o644)
@@ -317,7 +317,7 @@ func (pr *propRun) finish(e *Engine, seed int, t0 time.Time) int {
 		}
 		violations++
 		exit = 1
-		path := filepath.Join("/verif/replays", pr.prop, sanitize(f.rec.Name)+".json")
+		path := filepath.Join(outDir, "replays", pr.prop, sanitize(f.rec.Name)+".json")
 		parts := strings.SplitN(f.model, "\x00", 2)
 		rp := &Replay{Property: pr.prop, Obligation: f.rec.Name, Kind: "bounded", Text: f.rec.Text, Status: "refuted", Backend: f.rec.Backend,
 			SolverOutput: "", FailingInputFound: true, ReplayTest: parts[0], ReplayOutput: firstLines(f.detail, 80)}
@@ -391,9 +391,9 @@ func (pr *propRun) finish(e *Engine, seed int, t0 time.Time) int {
 		"wall_s":      time.Since(t0).Seconds(),
 		"violations":  violations,
 	}
-	os.MkdirAll("/verif/evidence", 0o755)
+	os.MkdirAll(filepath.Join(outDir, "evidence"), 0o755)
 	data, _ := json.MarshalIndent(ev, "", " ")
-	os.WriteFile(filepath.Join("/verif/evidence", pr.prop+".json"), data, 0o644)
+	os.WriteFile(filepath.Join(outDir, "evidence", pr.prop+".json"), data, 0o644)
 	fmt.Printf("%s %s: %d obligations, %d discharged, %d known findings, %d violations, %d undecided, %.1fs\n",
 		pr.prop, pr.tier, obligations, discharged, len(knownReported), violations, len(pr.undecided), time.Since(t0).Seconds())
 	if obligations == 0 {
